@@ -86,7 +86,10 @@ def mapper_roots(fx):
     for nm in ("new", "new_with_param_mapping", "remap_class", "remap_method", "remap_frame", "remap_throwable",
                "remap_stacktrace", "remap_stacktrace_typed", "deobfuscate_signature"):
         r["ProguardMapper::" + nm] = method(fx, MAPPER, nm)
-    r["ProguardMapper::from(&str)"] = [p for p in method(fx, MAPPER, "from", trait="From") if "(&'s str, bool)" not in p]
-    r["ProguardMapper::from((&str,bool))"] = [p for p in method(fx, MAPPER, "from", trait="From") if "(&'s str, bool)" in p]
+    # the two `From` impls are told apart by the source type, whatever the lifetime is called
+    import re as _re
+    pair = lambda p: bool(_re.search(r"From<\(&('\w+ )?str, bool\)>", p))
+    r["ProguardMapper::from(&str)"] = [p for p in method(fx, MAPPER, "from", trait="From") if not pair(p)]
+    r["ProguardMapper::from((&str,bool))"] = [p for p in method(fx, MAPPER, "from", trait="From") if pair(p)]
     r["mapper::RemappedFrameIter::next"] = method(fx, "mapper::RemappedFrameIter", "next", trait="Iterator")
     return r
